@@ -9,6 +9,11 @@ class Schema:
         #       "struct_bad" (raises MetadataEncodingError)
         self.kind = kind
         self.schema = None if kind is None else {"codec": "stub", "kind": kind}
+        if kind == "time_only":
+            # a JSON schema that declares just the two time fields (as tsdate's own default
+            # does) and - like any JSON schema - still allows undeclared properties
+            self.schema = {"codec": "json", "type": "object",
+                           "properties": {"mn": {"type": "number"}, "vr": {"type": "number"}}}
         self.log = log
         self.name = name
 
